@@ -328,6 +328,19 @@ def part_post(ctx, impl, rng, quick):
 def check_secondary(ctx, site, items, tag, extra=None):
     """items: (args, observed dict with labels/probs/aggregate, nr, nc, triples, bipartite).
     Model recomputation of probs_/aggregate_ from the implementation's labels and the input matrix."""
+    def want(it, what):
+        # an output is compared only when the caller asked for it (return_probs / return_aggregate): with the flag off the
+        # attribute may hold whatever an earlier stage left there, and the property says nothing about it
+        return it[0].get('options', {}).get(what, True)
+
+    def masked(it):
+        o = dict(it[1])
+        if not want(it, 'return_probs'):
+            o['probs'] = o['probs_row'] = o['probs_col'] = None
+        if not want(it, 'return_aggregate'):
+            o['aggregate'] = None
+        return (it[0], o) + tuple(it[2:])
+    items = [masked(it) for it in items]
     nb = [it for it in items if not it[5] and (it[1].get('probs') is not None or it[1].get('aggregate') is not None)]
     bp = [it for it in items if it[5] and (it[1].get('probs_row') is not None or it[1].get('aggregate') is not None)]
     if nb:
